@@ -145,7 +145,7 @@ def run(ctx):
 
     def add_run(f, sched, finish, why):
         nonlocal rid
-        rid += 1
+        rid = len(runs) + 1
         runs.append(run_cfg(f, rid, sched, finish, rng.randrange(1 << 30)))
         runfam[rid] = (f, why)
 
@@ -208,6 +208,16 @@ def run(ctx):
         add_run(f, [], 'seq', 'seq')
         add_run(f, [], 'rr', 'rr')
 
+    if ctx.replay:
+        # re-run exactly the recorded case (its full executed schedule) and judge it again
+        det = json.load(open(ctx.replay))['detail']
+        r0 = det['run']
+        fam0 = [f for f in small + big if f['name'] == r0['family']][0]
+        if fam0 not in fams:
+            fams.append(fam0)
+        sched0 = det.get('schedule') or (det.get('result') or {}).get('schedule') or r0['schedule']
+        runs, runfam, rid = [], {}, 0
+        add_run(fam0, sched0, 'rr', 'replay')
     ctx.log('runs to replay:', len(runs))
     recs, rc, out = ctx.run_harness('./internal/counter', 'TestVerifC03', inp={'runs': runs}, timeout=3000)
     results = {r['run']: r for r in recs if r.get('kind') == 'result'}
